@@ -32,8 +32,8 @@ TECHNIQUE = "deterministic simulation: definition space vs call-for-call expecta
 
 TYPES = ("COUNTER", "GAUGE", "HISTOGRAM", "SUMMARY")
 VALUE_EXPRS = (None, None, "i", "val", "i * 2.5", "len(name)", "person.age + 1", "flag", "name", "person", "nosuch",
-               "1 / 0", "data['k']", "G_HOST", "'12'", "'1e3'", "None")
-LABEL_EXPRS = ("name", "i", "person.name", "flag", "data['k']", "nosuch", "G_HOST")
+               "1 / 0", "data['k']", "G_HOST", "'12'", "'1e3'", "None", "host_raise('v')", "host_raise_base('v')")
+LABEL_EXPRS = ("name", "i", "person.name", "flag", "data['k']", "nosuch", "G_HOST", "host_raise_base('l')")
 STATICS = (["s", "blue"], ["i", 7], ["b", True], ["d", 2.5], ["s", ""])
 
 
